@@ -526,6 +526,7 @@ PINNED = [
     "class A { constructor(self) -> [int...] { } }\n",         #                 list_type_open_only
     "class A { constructor(self) -> [int, str] { } }\n",       #                 list_type
     "class A { constructor(self) -> map[int, int] { } }\n",    #                 user_map_type
+    "a: int? = nil\nbbb: int? = nil\nif get bbb ?= a { }\n",   # math_expr.rs    unreachable!("Expected ident in lhs") — `(get bbb) ?= a`
 ]
 
 
@@ -548,6 +549,8 @@ GUARDS = [
     "x = map[str, int] { typeof : 1 }\n",                                            # 12
     "class A { constructor(self) -> (fn()) { } }\n", "class A { constructor(self) -> int? { } }\n",  # 13
     "a = 5\nf = fn() { a = typeof }\n", "a = 5\nf = fn() { modify a = typeof }\n",    # 14
+    "a: int? = nil\nb: int? = nil\nz = typeof b ?= a\n", "a: int? = nil\nb: int? = nil\nc = get b ?= a\n",   # 15
+    "a: bool? = nil\nb: bool? = nil\nc = !b ?= a\n",                              # 15
 ]
 
 
